@@ -192,3 +192,1465 @@ def rule_ellipsis(ctx):
     r.positive_control('newaxis-after-ellipsis' in hits and 'newaxis-before-ellipsis' not in hits and 'ellipsis' not in hits,
                        'None entries counted only up to the Ellipsis: m[..., None] gets its new axis in the wrong place')
     return r
+
+
+# ==============================================================================================================
+# Fourth round (mutation brainstorming)
+# ==============================================================================================================
+import re
+
+from . import pC15 as P
+from . import pC16 as Q
+from .sC15 import AmountScan
+from ..engine.cutil import strip_c_comments
+
+MVC = 'Cython/Utility/MemoryView_C.c'
+MVP = 'Cython/Utility/MemoryView.pyx'
+CNAME = '__pyx_memoryview_slice_memviewslice'
+
+
+def _expand_template(text, wraparound, boundscheck, others=()):
+    """one expansion of a MemoryView_C.c index template with upper-case stand-ins for the substituted values"""
+    reads = Q.template_reads(text)
+    substs = sorted({v for v, g, k, e in reads if k == 'subst'})
+    env = {v: v.upper() for v in substs}
+    env['error_goto'] = 'return -1;'
+    for v in substs:
+        if re.search(r'\{\{\s*%s\s*\(\s*\)' % re.escape(v), text):
+            env[v] = (lambda name: (lambda: name.upper()))(v)
+    env.update(dict(others))
+    env['wraparound'], env['boundscheck'] = wraparound, boundscheck
+    return P.tempita_expand(text, env).strip(), env
+
+
+# ---------------------------------------------------------------------------------------------- C16-AMOUNT
+def rule_amount(ctx, M):
+    """M: the Model of sa/props/C16.py"""
+    r = Rule('C16-AMOUNT', 'integer indexing of a memoryview axis: what is added to a negative index is exactly the extent of that axis (SliceIndex template: the value read '
+             'from <src>.shape[<dim>]; integer branch of the slice helper: its `shape` parameter) - linear forms over IDX and LEN', floor=2)
+    # (i) the !is_slice branch of the helper
+    sc = AmountScan(CNAME, M.cparams, M.body, is_len=lambda e: e == ('id', 'shape'), index='start', flags={'is_slice': 0}).run()
+    r.inst('helper:!is_slice', sample='%s: %s' % (CNAME, [w for _, w in sc.adds]))
+    for k, msg in sorted(sc.problems.items()):
+        r.violate('helper:%s' % k, M.func.file, M.func.line, 'integer index branch of ' + msg)
+    if not sc.adds:
+        r.violate('helper:no-wraparound', M.func.file, M.func.line, 'the integer-index branch of %s never adds the extent to a negative index' % CNAME)
+    # (ii) the SliceIndex template
+    sec, text = M.section('SliceIndex')
+    conds = sorted({v for v, g, k, e in Q.template_reads(text) if k == 'cond'} - {'wraparound', 'boundscheck'})
+    adds, probs = [], {}
+    for bits in itertools.product((False, True), repeat=len(conds)):
+        body, env = _expand_template(text, 1, 1, zip(conds, bits))
+        src, dim, idx = env.get('src'), env.get('dim'), env.get('idx')
+        if not all(isinstance(x, str) for x in (src, dim, idx)):
+            raise AnalysisError('C16-AMOUNT: SliceIndex no longer substitutes {{src}} / {{dim}} / {{idx}}')
+
+        def is_len(e, src=src, dim=dim):
+            return e[0] == 'idx' and e[1][0] == 'mem' and e[1][2] == ('id', src) and e[1][3] == 'shape' and P.strip_wrappers(e[2]) == ('id', dim)
+        sc = AmountScan('SliceIndex', [('Py_ssize_t', idx)], P.parse_c_function_body(body), is_len=is_len).run()
+        adds += sc.adds
+        for k, v in sc.problems.items():
+            probs.setdefault(k, v)
+    r.inst('SliceIndex:expansions', sample='SliceIndex: %s' % sorted({w for _, w in adds}))
+    for k, msg in sorted(probs.items()):
+        r.violate('SliceIndex:%s' % k, MVC, sec.line, 'template ' + msg)
+    if not adds:
+        r.violate('SliceIndex:no-wraparound', MVC, sec.line, 'with wraparound on the SliceIndex template never adds the extent of the axis to a negative index')
+    pc = AmountScan('pc', [('Py_ssize_t', 'IDX')], P.parse_c_function_body('{ Py_ssize_t t = IDX; Py_ssize_t s = SRC.strides[DIM]; if (t < 0) t += s; DST.data += t * s; }'),
+                    is_len=lambda e: P.c_text(e) == 'SRC.shape[DIM]').run()
+    r.positive_control(bool(pc.problems), 'the stride added instead of the extent')
+    return r
+
+
+# ---------------------------------------------------------------------------------------------- C16-STEP
+def _as_bool(v):
+    from .slicenorm import Lin
+    if isinstance(v, bool):
+        return v
+    if isinstance(v, Lin) and v.const:
+        return v.c != 0
+    return None
+
+
+def rule_step(ctx):
+    from . import slicenorm as SN
+    from . import pC17
+    from ..engine.cguard import function_at
+    r = Rule('C16-STEP', 'slice helper: an absent step means step 1 walking upwards (negative_step false); a given step sets negative_step exactly when it is negative '
+             '(the `if (have_step)` block evaluated on the sign classes of the step)', floor=3)
+    text = strip_c_comments(ctx.read(MVC))
+    m = re.search(r'\bif\s*\(\s*have_step\s*\)', text)
+    if m is None:
+        raise AnalysisError('C16-STEP: `if (have_step)` not found in %s' % MVC)
+    f = function_at(text, m.start())
+    if f is None or CNAME not in f[0]:
+        raise AnalysisError('C16-STEP: `if (have_step)` is not inside %s' % CNAME)
+    line = text.count('\n', 0, m.start()) + 1
+    stmts = pC17.parse_body(text[f[1]:f[2] + 1])
+    target = []
+
+    def find(lst):
+        for st in lst:
+            if st.kind == 'if' and re.sub(r'\s', '', st.text) == 'have_step':
+                target.append(st)
+            for sub in (st.body, st.orelse):
+                if sub is not None:
+                    find(sub if isinstance(sub, list) else [sub])
+    find(stmts)
+    if len(target) != 1:
+        raise AnalysisError('C16-STEP: expected one `if (have_step)` statement, found %d' % len(target))
+    K = SN.Lin(0, {'k': 1})
+    cases = [('absent', False, SN.Lin(0), {'k': (SN.Lin(1), SN.INF)}, SN.Lin(1), False),
+             ('positive', True, K, {'k': (SN.Lin(1), SN.INF)}, K, False),
+             ('negative', True, -K, {'k': (SN.Lin(1), SN.INF)}, -K, True)]
+    for label, have, step, box, want_step, want_neg in cases:
+        key = 'have_step:%s' % label
+        r.inst(key, sample='step %s -> step %r, negative_step %s' % (label, want_step, want_neg))
+        box = dict(box)
+        box['L'] = (0, SN.INF)
+        s = SN.Sym(SN.Region(box), {'have_step': have, 'step': step})
+        try:
+            s.run(target)
+        except SN.Unproven as x:
+            raise AnalysisError('C16-STEP: the have_step block cannot be evaluated for a %s step: %s' % (label, x))
+        got_step, got_neg = s.env.get('step'), _as_bool(s.env.get('negative_step'))
+        if not (isinstance(got_step, SN.Lin) and got_step == want_step):
+            r.violate(key + ':step', MVC, line, 'for %s the slice helper walks with step %r instead of %r%s' % (
+                'an absent step' if not have else 'a %s step' % label, got_step, want_step, ' (the caller passes the dummy value 0: division by zero)' if not have else ''))
+        if got_neg is not want_neg:
+            r.violate(key + ':negative_step', MVC, line, 'for %s negative_step is %r instead of %r: the bounds are clamped for the wrong direction' % (
+                'an absent step' if not have else 'a %s step' % label, got_neg, want_neg))
+    pc = pC17.parse_body('{ if (have_step) { negative_step = step < 0; } else { negative_step = 1; step = 1; } }')
+    s = SN.Sym(SN.Region({'L': (0, SN.INF)}), {'have_step': False, 'step': SN.Lin(0)})
+    s.run(pc)
+    r.positive_control(_as_bool(s.env.get('negative_step')) is True, 'an absent step that sets negative_step')
+    return r
+
+
+# ---------------------------------------------------------------------------------------------- C16-STORE
+def _mono(e, defs=None, depth=0):
+    """sorted identifiers of a pure product (single-assignment locals in `defs` expanded), or None"""
+    e = P.strip_wrappers(e)
+    if e[0] == 'id':
+        if defs and e[1] in defs and depth < 4:
+            inner = _mono(defs[e[1]], defs, depth + 1)
+            if inner is not None:
+                return inner
+        return (e[1],)
+    if e[0] == 'bin' and e[1] == '*':
+        a, b = _mono(e[2], defs, depth), _mono(e[3], defs, depth)
+        if a is not None and b is not None:
+            return tuple(sorted(a + b))
+    return None
+
+
+def _single_defs(body, params):
+    """locals that are assigned exactly once (declaration initialiser or assignment): name -> expression"""
+    count, val = {}, {}
+    for s in P.c_walk_stmts(body):
+        if s[0] == 'decl':
+            for name, init, typ in s[1]:
+                count[name] = count.get(name, 0) + (1 if init is not None else 0)
+                if init is not None:
+                    val[name] = init
+        elif s[0] == 'expr' and s[1][0] == 'assign' and s[1][2][0] == 'id':
+            n = s[1][2][1]
+            count[n] = count.get(n, 0) + 1
+            val[n] = s[1][3]
+    return {n: v for n, v in val.items() if count.get(n) == 1 and n not in params}
+
+
+def _field_store(l):
+    """(object, field, index expr) for obj->field[idx] / obj.field[idx]; (object, field, None) for obj->field"""
+    l = P.strip_wrappers(l)
+    if l[0] == 'idx' and l[1][0] == 'mem' and l[1][2][0] == 'id':
+        return l[1][2][1], l[1][3], l[2]
+    if l[0] == 'mem' and l[2][0] == 'id':
+        return l[2][1], l[3], None
+    return None
+
+
+def _norm_assign(a):
+    """`x = x + e` / `x = e + x` is `x += e`"""
+    if a[0] == 'assign' and a[1] == '=':
+        r_ = P.strip_wrappers(a[3])
+        if r_[0] == 'bin' and r_[1] == '+':
+            lt = P.c_text(P.strip_wrappers(a[2]))
+            if P.c_text(P.strip_wrappers(r_[2])) == lt:
+                return ('assign', '+=', a[2], r_[3])
+            if P.c_text(P.strip_wrappers(r_[3])) == lt:
+                return ('assign', '+=', a[2], r_[2])
+    return a
+
+
+def _assigns(stmt):
+    for s in P.c_walk_stmts(stmt):
+        if s[0] == 'expr' and s[1][0] == 'assign':
+            yield _norm_assign(s[1])
+
+
+def rule_store(ctx, M):
+    r = Rule('C16-STORE', 'what a sliced axis becomes: stride * step, the computed extent and the source suboffset are stored at destination axis new_ndim, the data pointer moves by '
+             'start * stride; the SimpleSlice template copies field F of source axis <dim> to field F of destination axis <new_ndim>; every caller reads shape / strides / '
+             'suboffsets of the source at the axis it passes as `dim`', floor=17)
+    f = M.func
+    dst = M.cnames[0]
+    params = set(M.cnames)
+    for need in ('stride', 'step', 'start', 'suboffset', 'new_ndim', 'dim'):
+        if need not in params:
+            raise AnalysisError('C16-STORE: %s lost its parameter %s' % (CNAME, need))
+    divided = set()
+    for a in _assigns(M.body):
+        if a[2][0] == 'id' and any(isinstance(x, tuple) and x[0] == 'bin' and x[1] == '/' for x in _walk_expr(a[3])):
+            divided.add(a[2][1])
+    for s in P.c_walk_stmts(M.body):
+        if s[0] == 'decl':
+            for name, init, typ in s[1]:
+                if init is not None and any(isinstance(x, tuple) and x[0] == 'bin' and x[1] == '/' for x in _walk_expr(init)):
+                    divided.add(name)
+    defs = _single_defs(M.body, params)
+    want_rhs = {'strides': ('product', ('step', 'stride'), 'stride * step'), 'shape': ('extent', None, 'the computed extent'), 'suboffsets': ('mono', ('suboffset',), 'suboffset')}
+    seen_fields, offsets = set(), 0
+    for a in _assigns(M.body):
+        fs = _field_store(a[2])
+        if fs is None or fs[0] != dst:
+            continue
+        obj, field, idx = fs
+        if a[1] == '=' and field in want_rhs and idx is not None:
+            key = 'helper:dst.%s' % field
+            seen_fields.add(field)
+            r.inst(key, sample='%s' % P.c_text(a))
+            if P.strip_wrappers(idx) != ('id', 'new_ndim'):
+                r.violate(key + ':axis', f.file, f.line, '%s stores the new %s at axis [%s] instead of [new_ndim]: once an integer index has dropped a dimension the value lands on the wrong axis'
+                          % (CNAME, field, P.c_text(idx)))
+            kind, mono, text = want_rhs[field]
+            got = _mono(a[3], defs) if kind != 'extent' else _mono(a[3])
+            ok = (got == mono) if kind != 'extent' else (got is not None and len(got) == 1 and got[0] in divided and got[0] not in params)
+            if not ok:
+                r.violate(key + ':value', f.file, f.line, '%s stores `%s` as the %s of the sliced axis; slicing with a step needs %s' % (CNAME, P.c_text(a[3]), field, text))
+        elif a[1] == '+=' and (field == 'data' or field == 'suboffsets'):
+            offsets += 1
+            key = 'helper:offset:%s' % field
+            r.inst(key, sample=P.c_text(a))
+            if _mono(a[3], defs) != ('start', 'stride'):
+                r.violate(key, f.file, f.line, '%s advances %s by `%s`; the first selected element lies start * stride bytes into the axis' % (CNAME, P.c_text(a[2]), P.c_text(a[3])))
+    if seen_fields != set(want_rhs) or offsets < 2:
+        raise AnalysisError('C16-STORE: the stores of %s into %s were not all found (%s, %d offsets)' % (CNAME, dst, sorted(seen_fields), offsets))
+    # SimpleSlice
+    sec, text = M.section('SimpleSlice')
+    n_copy = 0
+    for access in ('direct', 'full'):
+        body, env = _expand_template(text, 1, 1, [('access', access)])
+        tree = P.parse_c_function_body('{' + body + '}')
+        D, S_, DIM, ND = env.get('dst'), env.get('src'), env.get('dim'), env.get('new_ndim')
+        for a in _assigns(tree):
+            l = _field_store(a[2])
+            if l is None or l[0] != D or l[2] is None:
+                continue
+            key = 'SimpleSlice:dst.%s' % l[1]
+            n_copy += 1
+            r.inst(key, sample=P.c_text(a))
+            if P.strip_wrappers(l[2]) != ('id', ND):
+                r.violate(key + ':axis', MVC, sec.line, 'SimpleSlice writes %s of destination axis [%s] instead of [{{new_ndim}}]' % (l[1], P.c_text(l[2])))
+            rr = _field_store(a[3])
+            if rr is not None and rr[0] == S_:
+                if rr[1] != l[1]:
+                    r.violate(key + ':field', MVC, sec.line, 'SimpleSlice copies the source %s into the destination %s' % (rr[1], l[1]))
+                if rr[2] is None or P.strip_wrappers(rr[2]) != ('id', DIM):
+                    r.violate(key + ':source-axis', MVC, sec.line, 'SimpleSlice reads %s of source axis [%s] instead of [{{dim}}]: wrong once an earlier integer index dropped a dimension'
+                              % (rr[1], P.c_text(rr[2]) if rr[2] is not None else ''))
+            elif not (l[1] == 'suboffsets' and P.c_text(P.strip_wrappers(a[3])) == '-1'):
+                r.violate(key + ':value', MVC, sec.line, 'SimpleSlice stores `%s` into the destination %s instead of copying the source axis' % (P.c_text(a[3]), l[1]))
+    if n_copy < 5:
+        raise AnalysisError('C16-STORE: only %d field copies found in SimpleSlice' % n_copy)
+    # ToughSlice and the pyx call sites: the axis read == the axis passed as `dim`
+    k_dim = M.cnames.index('dim')
+
+    def axis_args(args, where, rel, line, render=lambda s: s):
+        if len(args) != len(M.cnames):
+            return
+        dim_arg = re.sub(r'\s', '', args[k_dim])
+        for a, p in zip(args, M.cnames):
+            m = re.fullmatch(r'(.+?)(?:\.|->)(\w+)\[(.+)\]', re.sub(r'\s', '', a))
+            if not m:
+                continue
+            key = '%s:%s[axis]' % (where, p)
+            r.inst(key, sample='%s <- %s' % (p, a.strip()))
+            if m.group(3) != dim_arg:
+                r.violate(key, rel, line, '%s passes %s as `%s` but %s as `dim`: the extent/stride of another axis is used' % (where, a.strip(), p, args[k_dim].strip()))
+    tsec, ttext = M.section('ToughSlice')
+    calls = [c for c in P.c_calls_in_text(ttext) if c[0] == CNAME]
+    if len(calls) != 1:
+        raise AnalysisError('C16-STORE: ToughSlice does not contain exactly one call of %s' % CNAME)
+    axis_args(calls[0][1], 'ToughSlice', MVC, tsec.line)
+    ptext = ctx.read(MVP)
+    d = Q.pyx_extern_decl(ptext, CNAME)
+    if d is None:
+        raise AnalysisError('C16-STORE: no extern declaration of %s' % CNAME)
+    pcalls = [c for c in Q.pyx_calls(ptext, d['pyname']) if c[1] != d['line']]
+    if len(pcalls) < 2:
+        raise AnalysisError('C16-STORE: only %d pyx call sites' % len(pcalls))
+    k_slice = M.cnames.index('is_slice') if 'is_slice' in M.cnames else None
+    for args, line, indent, off in pcalls:
+        kind = 'call'
+        if k_slice is not None and len(args) == len(M.cnames):
+            kind = 'slice-call' if args[k_slice].strip() in ('True', '1') else 'index-call'
+        axis_args(args, 'memview_slice:%s' % kind, MVP, line)
+    pc = P.parse_c_function_body('{ dst->strides[new_ndim] = stride; }')
+    r.positive_control(_mono(next(_assigns(pc))[3]) != ('step', 'stride'), 'a stride store without the step')
+    return r
+
+
+def _walk_expr(e):
+    if not isinstance(e, tuple):
+        return
+    yield e
+    for x in e[1:]:
+        if isinstance(x, tuple):
+            yield from _walk_expr(x)
+        elif isinstance(x, list):
+            for y in x:
+                yield from _walk_expr(y)
+
+
+# ---------------------------------------------------------------------------------------------- C16-GEN
+MVPY_ = MVPY
+SLICE_KINDS = {'F': (0, 0, 0), 'A': (1, 0, 0), 'O': (0, 1, 0), 'P': (0, 0, 1), 'B': (1, 1, 0), 'C': (1, 0, 1), 'D': (0, 1, 1), 'X': (1, 1, 1)}
+BOUND_NAMES = ('start', 'stop', 'step')
+
+
+def _gen_index(kind):
+    if kind == 'N':
+        return MNode('None index', is_none=True, is_slice=False, pos=POS)
+    if kind == 'I':
+        m = MNode('integer index', is_none=False, is_slice=False, pos=POS)
+        m.attrs['result'] = lambda: 'IDX'
+        return m
+    pres = SLICE_KINDS[kind]
+    bounds = {}
+    for b, p in zip(BOUND_NAMES, pres):
+        bm = MNode('%s bound' % b, is_none=not p, pos=POS)
+        bm.attrs['result'] = (lambda name: (lambda: name.upper()))(b)
+        bounds[b] = bm
+    return MNode('slice index', is_none=False, is_slice=True, pos=POS, **bounds)
+
+
+def _gen_show(seq):
+    def one(k):
+        if k in SLICE_KINDS:
+            p = SLICE_KINDS[k]
+            return '%s:%s%s' % ('a' if p[0] else '', 'b' if p[1] else '', ':c' if p[2] else '')
+        return {'N': 'None', 'I': 'i'}[k]
+    return 'm[%s]' % ', '.join(one(k) for k in seq)
+
+
+def gen_domain():
+    kinds = 'NI' + ''.join(SLICE_KINDS)
+    for n in (1, 2):
+        for seq in itertools.product(kinds, repeat=n):
+            yield seq
+    for seq in itertools.product('NIFX', repeat=3):
+        yield seq
+
+
+def gen_table(folder, clo, selfm, report):
+    """fold generate_buffer_slice_code on every index-kind sequence and compare the emitted events with the reference bookkeeping"""
+    n = 0
+    for seq in gen_domain():
+        n += 1
+        events = []          # ('load', name, context) / ('line', text)
+        tu = MNode('TempitaUtilityCode', load_as_string=lambda name, file, context=None: (events.append(('load', name, dict(context or {}))), (None, '<<%s>>' % name))[1])
+        tu.attrs['load'] = tu.attrs['load_cached'] = tu.attrs['load_as_string']
+        folder._globals[(MVPY_, 'TempitaUtilityCode')] = tu
+        code = MNode('code', putln=lambda *a, **k: events.append(('line', str(a[0]) if a else '')), put=lambda *a, **k: events.append(('line', str(a[0]) if a else '')),
+                     error_goto=lambda pos: 'GOTO;', put_incref_memoryviewslice=lambda *a, **k: None,
+                     globalstate=MNode('globalstate', use_utility_code=lambda u: None),
+                     funcstate=MNode('funcstate', allocate_temp=lambda *a, **k: 'TMP', release_temp=lambda *a: None))
+        folder.steps = 0
+        what = 'generate_buffer_slice_code for %s' % _gen_show(seq)
+        try:
+            clo(selfm, code, [_gen_index(k) for k in seq], 'DST', None, True, True, {'boundscheck': True, 'wraparound': True}, False)
+        except Unfoldable as x:
+            raise AnalysisError('C16-GEN cannot fold %s: %s' % (what, x))
+        except AnalysisError:
+            raise
+        except Exception as x:
+            report('crash', '%s raises %s: %s' % (what, type(x).__name__, x))
+            continue
+        # what was emitted, in order
+        got = []
+        pending_axis = {}
+        for ev in events:
+            if ev[0] == 'load':
+                got.append(ev)
+            else:
+                for m in re.finditer(r'DST\.(shape|strides|suboffsets)\[(\d+)\]\s*=\s*(-?\d+)\s*;', ev[1]):
+                    got.append(('newaxis', m.group(1), int(m.group(2)), int(m.group(3))))
+        dim, nd, pos = 0, 0, 0
+        ok = True
+        for j, k in enumerate(seq):
+            where = '%s, index %d' % (what, j)
+            if k == 'N':
+                fields = {}
+                while pos < len(got) and got[pos][0] == 'newaxis' and got[pos][1] not in fields:
+                    fields[got[pos][1]] = got[pos][2:]
+                    pos += 1
+                if not fields and pos < len(got) and got[pos][0] == 'load' and got[pos][1] not in ('SliceIndex', 'SimpleSlice', 'ToughSlice'):
+                    raise AnalysisError('C16-GEN: a new axis is emitted through the template %s, which is outside the model' % got[pos][1])
+                if set(fields) != {'shape', 'strides', 'suboffsets'}:
+                    report('newaxis:missing', '%s: a None index must store shape, strides and suboffsets of a new axis (found %s)' % (where, sorted(fields)))
+                    ok = False
+                    break
+                if any(ax != nd for ax, _ in fields.values()):
+                    report('newaxis:axis', '%s: the new axis is written at destination axis %s instead of %d' % (where, sorted({ax for ax, _ in fields.values()}), nd))
+                if fields['shape'][1] != 1:
+                    report('newaxis:shape', '%s: the new axis gets extent %d instead of 1' % (where, fields['shape'][1]))
+                if fields['suboffsets'][1] >= 0:
+                    report('newaxis:suboffset', '%s: the new axis gets suboffset %d (an indirect dimension) instead of -1' % (where, fields['suboffsets'][1]))
+                nd += 1
+                continue
+            if pos >= len(got) or got[pos][0] != 'load':
+                report('missing-template', '%s: no template is instantiated for this index' % where)
+                ok = False
+                break
+            _, name, cx = got[pos]
+            pos += 1
+            if cx.get('dim') != dim:
+                report('source-axis', '%s: the template %s is instantiated for source axis %r instead of %d (None indices do not consume a source dimension, every other index consumes one)'
+                       % (where, name, cx.get('dim'), dim))
+            if cx.get('new_ndim') != nd:
+                report('destination-axis', '%s: the template %s writes destination axis %r instead of %d (a slice or None adds a result axis, an integer index does not)'
+                       % (where, name, cx.get('new_ndim'), nd))
+            if k == 'I':
+                if name != 'SliceIndex':
+                    report('template:index', '%s: an integer index is compiled with the %s template' % (where, name))
+                elif cx.get('idx') != 'IDX':
+                    report('index:value', '%s: SliceIndex receives idx=%r instead of the result of the index expression' % (where, cx.get('idx')))
+                dim += 1
+                continue
+            pres = SLICE_KINDS[k]
+            want = 'SimpleSlice' if not any(pres) else 'ToughSlice'
+            if name != want:
+                report('template:slice', '%s: the slice is compiled with the %s template instead of %s%s' % (
+                    where, name, want, ' (its bounds are ignored: the whole axis is taken)' if name == 'SimpleSlice' else ''))
+            elif want == 'ToughSlice':
+                for b, p in zip(BOUND_NAMES, pres):
+                    if bool(cx.get('have_' + b)) != bool(p):
+                        report('have_%s' % b, '%s: have_%s is %r although the %s bound is %s' % (where, b, cx.get('have_' + b), b, 'given' if p else 'absent'))
+                    elif p and cx.get(b) != b.upper():
+                        report('value_%s' % b, '%s: %s is %r instead of the result of the %s expression' % (where, b, cx.get(b), b))
+            dim += 1
+            nd += 1
+        if ok and pos != len(got):
+            report('extra-code', '%s emits more templates / new-axis stores than it has indices' % what)
+    return n
+
+
+def rule_gen(ctx):
+    r = Rule('C16-GEN', 'Compiler/MemoryView.generate_buffer_slice_code folded on every sequence of index kinds (None, integer, slices with every combination of present bounds; '
+             'length <= 2, and length 3 over four representative kinds): the k-th non-None index reads source axis k, the destination axis counts the preceding None / slice '
+             'indices, a new axis has extent 1 and suboffset -1, a slice is a full slice exactly when no bound is given, have_<bound> is true exactly for the given bounds', floor=150)
+    tree = ctx.parse(MVPY_)
+    cls = next((n for n in tree.body if isinstance(n, ast.ClassDef) and n.name == 'MemoryViewSliceBufferEntry'), None)
+    fdef = next((n for n in (cls.body if cls else []) if isinstance(n, ast.FunctionDef) and n.name == 'generate_buffer_slice_code'), None)
+    if fdef is None:
+        raise AnalysisError('C16-GEN: MemoryViewSliceBufferEntry.generate_buffer_slice_code vanished')
+    params = [a.arg for a in fdef.args.args]
+    if params != ['self', 'code', 'indices', 'dst', 'dst_type', 'have_gil', 'have_slices', 'directives', 'drop_temp_refcounting']:
+        raise AnalysisError('C16-GEN: generate_buffer_slice_code now takes %s' % params)
+    f = NodeFolder(ctx)
+    f._globals[(MVPY_, 'slice_memviewslice_utility')] = MNode('slice utility')
+    selfm = MNode('buffer entry', cls, cname='SRC', type=MNode('memoryview type', axes=[('direct', 'strided')] * 4), __rel__=MVPY_)
+    env = Env({'getattr': lambda o, n, *d: f.attribute(o, n)}, None, MVPY_)
+    seen = set()
+
+    def report(cat, msg):
+        if cat not in seen:
+            seen.add(cat)
+            r.violate('MemoryView.generate_buffer_slice_code:%s' % cat, MVPY_, fdef.lineno, msg)
+    n = gen_table(f, Closure(f, fdef, env), selfm, report)
+    for i in range(n):
+        r.inst(i, nontrivial=i < 64)
+    r.samples.append('%d index-kind sequences, e.g. %s' % (n, _gen_show('NXI')))
+    # positive control: None consumes a source dimension
+    pc_src = '''
+def generate_buffer_slice_code(self, code, indices, dst, dst_type, have_gil, have_slices, directives, drop_temp_refcounting):
+    dim = -1
+    new_ndim = 0
+    for index in indices:
+        dim += 1
+        if index.is_none:
+            for attrib, value in [('shape', 1), ('strides', 0), ('suboffsets', -1)]:
+                code.putln(f"{dst}.{attrib}[{new_ndim:d}] = {value:d};")
+            new_ndim += 1
+            continue
+        d = dict(dim=dim, new_ndim=new_ndim)
+        if index.is_slice:
+            for s in ("start", "stop", "step"):
+                idx = getattr(index, s)
+                d['have_' + s] = not idx.is_none
+                d[s] = "0" if idx.is_none else idx.result()
+            util_name = "ToughSlice" if (d['have_start'] or d['have_stop'] or d['have_step']) else "SimpleSlice"
+            new_ndim += 1
+        else:
+            util_name = "SliceIndex"
+            d.update(idx=index.result())
+        _, impl = TempitaUtilityCode.load_as_string(util_name, "MemoryView_C.c", context=d)
+        code.put(impl)
+'''
+    hits = []
+    pf = NodeFolder(ctx)
+    penv = Env({'getattr': lambda o, n, *d: pf.attribute(o, n)}, None, MVPY_)
+    gen_table(pf, Closure(pf, ast.parse(pc_src).body[0], penv), selfm, lambda cat, msg: hits.append(cat))
+    r.positive_control('source-axis' in hits and 'destination-axis' not in hits, 'a None index that advances the source dimension')
+    return r
+
+
+# ---------------------------------------------------------------------------------------------- pyx -> Python
+def pyx_to_python(text, what):
+    """A cdef function of a .pyx utility file as Python source the checker can parse: header -> def, `cdef` declarations -> assignments of
+    their initialisers, C casts removed, bare annotations removed.  Anything else that does not parse is an analysis error."""
+    lines = text.split('\n')
+    out = []
+    i = 0
+    while i < len(lines) and (lines[i].lstrip().startswith('@') or not lines[i].strip()):
+        i += 1
+    header = lines[i]
+    while header.count('(') > header.count(')') and i + 1 < len(lines):
+        i += 1
+        header += ' ' + lines[i].strip()
+    m = re.match(r'^(\s*)(?:cdef|cpdef|def)\b.*?\b(\w+)\s*\((.*)\)[^:()]*:\s*$', header)
+    if not m:
+        raise AnalysisError('%s: cannot read the function header %r' % (what, header.strip()[:80]))
+    params = []
+    for p in [x.strip() for x in m.group(3).split(',') if x.strip()]:
+        p = p.split('=')[0].strip()
+        name = p.split(':')[0].strip() if ':' in p else p
+        name = re.findall(r'[A-Za-z_]\w*', name)[-1]
+        params.append(name)
+    out.append('%sdef %s(%s):' % (m.group(1), m.group(2), ', '.join(params)))
+    cast = re.compile(r'(^|[(,=\[:+\-*/ ]|\breturn\s)<\s*[A-Za-z_][\w \t\*\{\}\.]*?\s*>\s*(?=[A-Za-z_(&])')
+    for ln in lines[i + 1:]:
+        s = ln.strip()
+        ind = ln[:len(ln) - len(ln.lstrip())]
+        if s.startswith('#'):
+            continue
+        code_part = re.sub(r'\s+#.*$', '', ln) if '#' in ln and '"' not in ln and "'" not in ln else ln
+        s = code_part.strip()
+        if s.startswith('cdef '):
+            decl = s[5:]
+            for part in _split_top(decl):
+                if '=' in part and not re.search(r'[=!<>]=', part):
+                    l, rhs = part.split('=', 1)
+                    names = re.findall(r'[A-Za-z_]\w*', l)
+                    if not names:
+                        raise AnalysisError('%s: cannot read the declaration %r' % (what, s))
+                    out.append('%s%s = %s' % (ind, names[-1], _strip_casts(rhs.strip(), cast)))
+            continue
+        if re.fullmatch(r'[A-Za-z_]\w*\s*:\s*[\w\[\], ]+', s):
+            continue
+        m2 = re.match(r'^raise\s+(\w+)\s*,\s*(.+)$', s)
+        if m2:
+            out.append('%sraise %s(%s)' % (ind, m2.group(1), m2.group(2)))
+            continue
+        out.append(_strip_casts(code_part, cast))
+    src = '\n'.join(out)
+    import textwrap
+    src = textwrap.dedent(src)
+    try:
+        tree = ast.parse(src)
+    except SyntaxError as x:
+        raise AnalysisError('%s: the function does not translate to Python (%s, line %r)' % (what, x.msg, (x.text or '').strip()[:60]))
+    fn = tree.body[0]
+    if not isinstance(fn, ast.FunctionDef):
+        raise AnalysisError('%s: no function found' % what)
+    if not fn.body:
+        raise AnalysisError('%s: empty function' % what)
+    return fn
+
+
+def _split_top(s):
+    out, depth, cur = [], 0, ''
+    for ch in s:
+        if ch in '([{':
+            depth += 1
+        elif ch in ')]}':
+            depth -= 1
+        if ch == ',' and depth == 0:
+            out.append(cur)
+            cur = ''
+        else:
+            cur += ch
+    if cur.strip():
+        out.append(cur)
+    return out
+
+
+def _strip_casts(s, cast):
+    prev = None
+    while prev != s:
+        prev = s
+        s = cast.sub(lambda m: m.group(1), s)
+    return s
+
+
+def pyx_function(ctx, name):
+    text = ctx.read(MVP)
+    m = re.search(r'^(?:@[^\n]*\n)*(?:cdef|cpdef|def)\b[^\n(]*\b%s\s*\(' % re.escape(name), text, re.M)
+    if not m:
+        raise AnalysisError('MemoryView.pyx: function %s vanished' % name)
+    from ..engine.cutil import match_paren
+    rp = match_paren(text, m.end() - 1)
+    if rp < 0:
+        raise AnalysisError('MemoryView.pyx: unbalanced header of %s' % name)
+    eol = text.find('\n', rp)
+    pos = eol + 1
+    while pos < len(text):
+        nl = text.find('\n', pos)
+        nl = len(text) if nl < 0 else nl
+        ln = text[pos:nl]
+        if ln.strip() and not ln[0].isspace():
+            break
+        pos = nl + 1
+    return text[m.start():pos], text.count('\n', 0, m.start()) + 1
+
+
+class RaisingFolder(NodeFolder):
+    """NodeFolder + `raise <builtin exception>(...)`: the exception is raised in the checker and seen by the caller of the fold"""
+
+    def stmt(self, s, env):
+        if isinstance(s, ast.Raise) and s.exc is not None:
+            v = self.expr(s.exc, env)
+            if isinstance(v, type) and issubclass(v, Exception):
+                v = v()
+            if isinstance(v, Exception):
+                raise v
+            raise Unfoldable('raise of %r' % (v,))
+        return super().stmt(s, env)
+
+
+# ---------------------------------------------------------------------------------------------- C16-PYXELL
+def rule_pyx_ellipsis(ctx):
+    r = Rule('C16-PYXELL', 'MemoryView.pyx: _unellipsify / _unellipsify_index_tuple (the index normalisation of memoryview objects) folded on every index of kinds '
+             '(Ellipsis, slice, integer) up to length 4 with at most one Ellipsis, ndim 1..3: the Ellipsis becomes the missing full slices in its place, missing '
+             'trailing dimensions are appended, written indices keep value and order, have_slices is set unless the result is purely integer', floor=90)
+    t1, line1 = pyx_function(ctx, '_unellipsify_index_tuple')
+    t2, line2 = pyx_function(ctx, '_unellipsify')
+    f1 = pyx_to_python(t1, 'C16-PYXELL _unellipsify_index_tuple')
+    f2 = pyx_to_python(t2, 'C16-PYXELL _unellipsify')
+    seen = set()
+
+    def report(cat, msg, line=line1):
+        if cat not in seen:
+            seen.add(cat)
+            r.violate('MemoryView.pyx:_unellipsify:%s' % cat, MVP, line, msg)
+    n = pyx_ellipsis_table(ctx, f1, f2, report)
+    for i in range(n):
+        r.inst(i, nontrivial=i < 64)
+    r.samples.append('%d (index, ndim) pairs' % n)
+    pc1 = ast.parse('''
+def _unellipsify_index_tuple(index_tuple, ndim):
+    have_slices = False
+    first = -1
+    idx = 0
+    for item in index_tuple:
+        if item is Ellipsis:
+            have_slices = True
+            if first == -1:
+                first = idx
+        elif isinstance(item, slice):
+            have_slices = True
+        idx += 1
+    if first >= 0:
+        result = [slice(None)] * ndim
+        for idx in range(first):
+            result[idx] = index_tuple[idx]
+        tail = len(index_tuple) - first
+        end = ndim - tail + 1
+        for idx in range(1, tail):
+            result[end + idx - 1 + 1 - 1] = index_tuple[first + idx]
+        index_tuple = tuple(result)
+    elif ndim > idx:
+        have_slices = True
+        index_tuple += (slice(None),) * (ndim - idx - 1)
+    return have_slices, index_tuple
+''').body[0]
+    hits = []
+    pyx_ellipsis_table(ctx, pc1, f2, lambda cat, msg, line=0: hits.append(cat))
+    r.positive_control('missing-dimensions' in hits, 'padding one full slice too few is reported')
+    return r
+
+
+def pyx_ellipsis_table(ctx, f_tuple, f_any, report):
+    folder = RaisingFolder(ctx)
+
+    class InvalidIndex(Exception):
+        pass
+
+    def bad_index(item):
+        raise InvalidIndex(repr(item))
+    env = Env({'Ellipsis': Ellipsis, 'slice': slice, 'isinstance': isinstance, 'PyIndex_Check': lambda x: isinstance(x, int) and not isinstance(x, bool),
+               '_err_invalid_index': bad_index, 'cython': MNode('cython', unlikely=lambda x: x, likely=lambda x: x), 'tuple': tuple, 'len': len, 'range': range, 'list': list}, None, MVPY)
+    clo_tuple = Closure(folder, f_tuple, env)
+    env.vars['_unellipsify_index_tuple'] = clo_tuple
+    clo_any = Closure(folder, f_any, env)
+    n = 0
+    for ln in range(0, MAX_LEN + 1):
+        for seq in itertools.product('ESI', repeat=ln):
+            if seq.count('E') > 1:
+                continue
+            consuming = sum(1 for k in seq if k in 'SI')
+            for ndim in range(1, MAX_NDIM + 1):
+                if consuming > ndim:
+                    continue
+                items = []
+                for j, k in enumerate(seq):
+                    items.append(Ellipsis if k == 'E' else slice(10 + j, 20 + j) if k == 'S' else 100 + j)
+                variants = [('tuple', tuple(items))]
+                if ln == 1:
+                    variants.append(('single', items[0]))
+                for how, index in variants:
+                    n += 1
+                    folder.steps = 0
+                    what = '_unellipsify(%s, ndim=%d)' % (show_pyx(seq, how == 'tuple'), ndim)
+                    try:
+                        res = clo_any(index, ndim)
+                    except Unfoldable as x:
+                        raise AnalysisError('C16-PYXELL cannot fold %s: %s' % (what, x))
+                    except AnalysisError:
+                        raise
+                    except Exception as x:
+                        report('crash', '%s raises %s: %s' % (what, type(x).__name__, x))
+                        continue
+                    if not (isinstance(res, tuple) and len(res) == 2 and isinstance(res[1], tuple)):
+                        raise AnalysisError('C16-PYXELL: %s returns %r instead of (have_slices, tuple)' % (what, res))
+                    have, got = res
+                    fill = [slice(None)] * (ndim - consuming)
+                    if 'E' in seq:
+                        k = seq.index('E')
+                        want = items[:k] + fill + items[k + 1:]
+                    else:
+                        want = items + fill
+                    if len(got) != ndim:
+                        report('missing-dimensions' if len(got) < ndim else 'extra-dimensions',
+                               '%s returns %d indices for a %d-dimensional view: %r (expected %r)' % (what, len(got), ndim, got, tuple(want)))
+                        continue
+                    if list(got) != want:
+                        report('ellipsis' if 'E' in seq else 'padding', '%s returns %r, NumPy semantics is %r' % (what, got, tuple(want)))
+                        continue
+                    if any(isinstance(x, slice) for x in want) and not have:
+                        report('have_slices', '%s: have_slices is false although the result %r contains a slice: the access is treated as element indexing' % (what, got))
+                    if 'E' not in seq and not any(isinstance(x, slice) for x in want) and have:      # (with an Ellipsis NumPy returns a 0-dim view as well)
+                        report('have_slices:spurious', '%s: have_slices is true although every index is an integer: an element access returns a 0-dim view' % what)
+    return n
+
+
+class MNodeShim:
+    """stand-in for the `cython` module inside folded pyx code: unlikely()/likely() are the identity"""
+    @staticmethod
+    def unlikely(x):
+        return x
+
+    @staticmethod
+    def likely(x):
+        return x
+
+
+def show_pyx(seq, as_tuple=True):
+    body = ', '.join({'E': '...', 'S': 'a:b', 'I': 'i'}[k] for k in seq)
+    return 'm[%s%s]' % (body, ',' if as_tuple and len(seq) == 1 else '') if seq else 'm[()]'
+
+
+# ---------------------------------------------------------------------------------------------- C16-PYXSLICE
+def _pyx_loop(ftext, needle, what):
+    """the `for` statement of a pyx function whose body contains `needle`, as a Python ast.For"""
+    lines = ftext.split('\n')
+    best = None
+    for i, ln in enumerate(lines):
+        m = re.match(r'^(\s*)for\s.+:\s*(#.*)?$', ln)
+        if not m:
+            continue
+        ind = len(m.group(1))
+        j = i + 1
+        while j < len(lines) and (not lines[j].strip() or len(lines[j]) - len(lines[j].lstrip()) > ind):
+            j += 1
+        block = lines[i:j]
+        if any(needle in b for b in block) and (best is None or len(block) < len(best)):
+            best = block
+    if best is None:
+        raise AnalysisError('%s: no loop calling %s found' % (what, needle))
+    import textwrap
+    src = textwrap.dedent('\n'.join(re.sub(r'\s+#[^"\']*$', '', b) for b in best))
+    try:
+        node = ast.parse(src).body[0]
+    except SyntaxError as x:
+        raise AnalysisError('%s: the loop does not parse as Python (%s: %r)' % (what, x.msg, (x.text or '').strip()[:60]))
+    if not isinstance(node, ast.For):
+        raise AnalysisError('%s: no for statement' % what)
+    return node
+
+
+BOUND_VALUES = (None, 0, 5, -3)
+
+
+def _bound_reads_are_classified(loop):
+    """None if the loop looks at <index>.start/.stop/.step only through `is None` tests, truthiness (or / and / not / bool()) or by passing the value on -
+    then {None, 0, positive, negative} is a complete partition of what a bound can be for this code; otherwise the offending use"""
+    parents = {}
+    for n in ast.walk(loop):
+        for c in ast.iter_child_nodes(n):
+            parents[c] = n
+    for n in ast.walk(loop):
+        if not (isinstance(n, ast.Attribute) and n.attr in BOUND_NAMES):
+            continue
+        p = parents.get(n)
+        if isinstance(p, ast.Compare) and all(isinstance(o, (ast.Is, ast.IsNot)) for o in p.ops):
+            continue
+        if isinstance(p, (ast.BoolOp, ast.Assign, ast.IfExp)) or (isinstance(p, ast.UnaryOp) and isinstance(p.op, ast.Not)):
+            continue
+        if isinstance(p, ast.Call) and n in p.args:
+            continue
+        return ast.unparse(p) if p is not None else ast.unparse(n)
+    return None
+
+
+def pyx_slice_table(ctx, loop, pyname, pnames, report):
+    why = _bound_reads_are_classified(loop)
+    if why:
+        raise AnalysisError('C16-PYXSLICE: memview_slice computes with a slice bound (%s): the classes None / 0 / positive / negative no longer cover what the loop can distinguish' % why)
+    folder = NodeFolder(ctx)
+    n = 0
+
+    def fld(p):
+        return 'suboffsets' if ('suboffset' in p and 'dim' not in p) else 'strides' if 'stride' in p else 'shape' if 'shape' in p else None
+    pos = {p: i for i, p in enumerate(pnames)}
+    need = ['dim', 'new_ndim', 'start', 'stop', 'step', 'have_start', 'have_stop', 'have_step', 'is_slice']
+    if any(p not in pos for p in need):
+        raise AnalysisError('C16-PYXSLICE: the extern declaration lost one of %s' % need)
+
+    def slc(a, b, c):
+        return MNode('slice(%r, %r, %r)' % (a, b, c), start=a, stop=b, step=c, __vals__=(a, b, c))
+    singles = [[7], [-2], [0]] + [[slc(a, b, c)] for a in BOUND_VALUES for b in BOUND_VALUES for c in BOUND_VALUES]
+    reps = [7, ('s', 5, None, None), ('s', None, 0, -3)]
+    multi = [list(t) for t in itertools.product(reps, repeat=2)] + [list(t) for t in itertools.product(reps[:2], repeat=3)]
+    for seq in singles + [[slc(*x[1:]) if isinstance(x, tuple) else x for x in t] for t in multi]:
+        n += 1
+        calls = []
+        p_src = MNode('p_src', shape=[('shape', k) for k in range(4)], strides=[('strides', k) for k in range(4)], suboffsets=[('suboffsets', k) for k in range(4)])
+        p_dst = MNode('p_dst', shape=[None] * 4, strides=[None] * 4, suboffsets=[None] * 4)
+        env = Env({'indices': tuple(seq), 'p_src': p_src, 'p_dst': p_dst, 'p_suboffset_dim': 'PSUB', 'new_ndim': 0, 'enumerate': enumerate,
+                   'PyIndex_Check': lambda x: isinstance(x, int) and not isinstance(x, bool), pyname: lambda *a: calls.append(a)}, None, MVPY)
+        folder.steps = 0
+        what = 'memview_slice for m[%s]' % ', '.join(('%r' % x) if isinstance(x, int) else ('%s:%s:%s' % tuple('' if v is None else v for v in x.attrs['__vals__'])) for x in seq)
+        try:
+            folder.stmt(loop, env)
+        except Unfoldable as x:
+            raise AnalysisError('C16-PYXSLICE cannot fold %s: %s' % (what, x))
+        except AnalysisError:
+            raise
+        except Exception as x:
+            report('crash', '%s raises %s: %s' % (what, type(x).__name__, x))
+            continue
+        if len(calls) != len(seq):
+            report('calls', '%s calls the slice helper %d times for %d indices' % (what, len(calls), len(seq)))
+            continue
+        nd = 0
+        for j, (x, a) in enumerate(zip(seq, calls)):
+            if len(a) != len(pnames):
+                report('arity', '%s passes %d arguments' % (what, len(a)))
+                break
+            where = '%s, index %d' % (what, j)
+            if a[pos['dim']] != j:
+                report('dim', '%s: dim is %r instead of %d' % (where, a[pos['dim']], j))
+            for p in pnames:
+                if fld(p) and a[pos[p]] != (fld(p), j):
+                    report('axis:%s' % p, '%s: `%s` is read from %r instead of %s[%d] of the source' % (where, p, a[pos[p]], fld(p), j))
+            if a[pos['new_ndim']] != nd:
+                report('new_ndim', '%s: the result is written to destination axis %r instead of %d (each preceding slice adds one result axis)' % (where, a[pos['new_ndim']], nd))
+            if isinstance(x, int):
+                if a[pos['is_slice']]:
+                    report('is_slice:index', '%s: an integer index is passed with is_slice true' % where)
+                if a[pos['start']] != x:
+                    report('index-value', '%s: the integer index %d is passed as %r' % (where, x, a[pos['start']]))
+                continue
+            if not a[pos['is_slice']]:
+                report('is_slice:slice', '%s: a slice is passed with is_slice false' % where)
+            for b, v in zip(BOUND_NAMES, x.attrs['__vals__']):
+                have = bool(a[pos['have_' + b]])
+                if have != (v is not None):
+                    report('have_%s' % b, '%s: have_%s is %r for %s = %r (%s)' % (where, b, a[pos['have_' + b]], b, v,
+                           'an explicit 0 is treated as absent%s' % ('; m[::0] must raise ValueError' if b == 'step' else '') if v == 0 else 'the default is not applied' if v is None else 'the bound is ignored'))
+                elif v is not None and a[pos[b]] != v:
+                    report('value_%s' % b, '%s: the %s bound %r is passed as %r' % (where, b, v, a[pos[b]]))
+            nd += 1
+        if env.vars.get('new_ndim') != nd and len(calls) == len(seq):
+            report('new_ndim:final', '%s: new_ndim is %r after the loop, the result has %d dimensions' % (what, env.vars.get('new_ndim'), nd))
+    return n
+
+
+def rule_pyx_slice(ctx):
+    r = Rule('C16-PYXSLICE', 'MemoryView.pyx memview_slice: the index loop folded on integer indices and on slices with every start/stop/step in {None, 0, 5, -3}: '
+             'have_<bound> is true exactly when the bound is not None, a given bound is passed unchanged (an explicit 0 stays 0), shape/strides/suboffsets are read '
+             'at the source axis of the index, new_ndim counts the preceding slices, is_slice matches the kind of index', floor=70)
+    ptext = ctx.read(MVP)
+    d = Q.pyx_extern_decl(ptext, CNAME)
+    if d is None:
+        raise AnalysisError('C16-PYXSLICE: no extern declaration of %s' % CNAME)
+    calls = [c for c in Q.pyx_calls(ptext, d['pyname']) if c[1] != d['line']]
+    if not calls:
+        raise AnalysisError('C16-PYXSLICE: no call of %s' % d['pyname'])
+    ftext = Q.pyx_function_text(ptext, calls[0][3])
+    loop = _pyx_loop(ftext, d['pyname'] + '(', 'C16-PYXSLICE')
+    seen = set()
+
+    def report(cat, msg):
+        if cat not in seen:
+            seen.add(cat)
+            r.violate('MemoryView.pyx:memview_slice:%s' % cat, MVP, calls[0][1], msg)
+    n = pyx_slice_table(ctx, loop, d['pyname'], [p for _, p in d['params']], report)
+    for i in range(n):
+        r.inst(i, nontrivial=i < 70)
+    pc = ast.parse('''
+for dim, index in enumerate(indices):
+    if PyIndex_Check(index):
+        f(p_dst, p_src.shape[dim], p_src.strides[dim], p_src.suboffsets[dim], dim, new_ndim, p_suboffset_dim, index, 0, 0, 0, 0, 0, False)
+    else:
+        f(p_dst, p_src.shape[dim], p_src.strides[dim], p_src.suboffsets[dim], dim, new_ndim, p_suboffset_dim,
+          index.start or 0, index.stop or 0, index.step or 0, index.start is not None, index.stop is not None, bool(index.step), True)
+        new_ndim += 1
+''').body[0]
+    hits = []
+    pyx_slice_table(ctx, pc, 'f', [p for _, p in d['params']], lambda cat, msg: hits.append(cat))
+    r.positive_control(set(hits) == {'have_step'}, 'have_step computed by truthiness: an explicit step 0 is treated as absent')
+    return r
+
+
+# ---------------------------------------------------------------------------------------------- C16-PYXIDX
+class _PyLin:
+    """symbolic execution of a translated pyx function on linear forms (one integer parameter classified relative to the axis length)"""
+
+    def __init__(self, what, region, known, raisers, index_param='index'):
+        from .slicenorm import Lin
+        self.Lin = Lin
+        self.index_param = index_param
+        self.what, self.r, self.known, self.raisers = what, region, known, raisers
+        self.outcomes = []       # ('raise', exc, uses) / ('end', uses)
+
+    def val(self, e, env):
+        Lin = self.Lin
+        if isinstance(e, ast.Constant):
+            if isinstance(e.value, bool) or not isinstance(e.value, int):
+                return ('opaque', repr(e.value))
+            return Lin(e.value)
+        if isinstance(e, ast.Name):
+            return env.get(e.id, ('opaque', e.id))
+        if isinstance(e, (ast.Attribute, ast.Subscript)):
+            t = ast.unparse(e)
+            for k, v in self.known.items():
+                if re.sub(r'\s', '', t) == k:
+                    return v
+            return ('opaque', t)
+        if isinstance(e, ast.UnaryOp) and isinstance(e.op, ast.USub):
+            v = self.val(e.operand, env)
+            return -v if isinstance(v, Lin) else ('opaque', ast.unparse(e))
+        if isinstance(e, ast.BinOp):
+            a, b = self.val(e.left, env), self.val(e.right, env)
+            if isinstance(e.op, (ast.Add, ast.Sub)) and isinstance(a, Lin) and isinstance(b, Lin):
+                return a + b if isinstance(e.op, ast.Add) else a - b
+            if isinstance(e.op, ast.Mult):
+                for side, v in ((e.left, a), (e.right, b)):
+                    if isinstance(v, Lin) and any(isinstance(x, ast.Name) and x.id == self.index_param for x in ast.walk(side)):
+                        env.setdefault('#uses', []).append(v)       # the index (whatever it has become) is scaled: an element offset
+                if isinstance(a, Lin) and isinstance(b, Lin) and (a.const or b.const):
+                    return b.scale(a.c) if a.const else a.scale(b.c)
+            return ('opaque', ast.unparse(e))
+        if isinstance(e, ast.Call):
+            name = e.func.attr if isinstance(e.func, ast.Attribute) else e.func.id if isinstance(e.func, ast.Name) else None
+            if name in ('unlikely', 'likely') and len(e.args) == 1:
+                return self.val(e.args[0], env)
+            return ('opaque', ast.unparse(e))
+        return ('opaque', ast.unparse(e))
+
+    def truth(self, e, env):
+        """[(bool, env)]"""
+        Lin = self.Lin
+        if isinstance(e, ast.Call) and len(e.args) == 1 and (e.func.attr if isinstance(e.func, ast.Attribute) else getattr(e.func, 'id', None)) in ('unlikely', 'likely'):
+            return self.truth(e.args[0], env)
+        if isinstance(e, ast.UnaryOp) and isinstance(e.op, ast.Not):
+            return [(not t, v) for t, v in self.truth(e.operand, env)]
+        if isinstance(e, ast.BoolOp):
+            cur = [(None, env)]
+            is_and = isinstance(e.op, ast.And)
+            for sub in e.values:
+                nxt = []
+                for t, v in cur:
+                    if t is not None and (t is False if is_and else t is True):
+                        nxt.append((t, v))
+                    else:
+                        nxt += self.truth(sub, v)
+                cur = nxt
+            return cur
+        if isinstance(e, ast.Compare) and len(e.ops) == 1:
+            a, b = self.val(e.left, env), self.val(e.comparators[0], env)
+            op = {ast.Lt: '<', ast.LtE: '<=', ast.Gt: '>', ast.GtE: '>=', ast.Eq: '==', ast.NotEq: '!='}.get(type(e.ops[0]))
+            if op and isinstance(a, Lin) and isinstance(b, Lin):
+                res = self.r.decide(op, a - b)
+                if res is not None:
+                    return [(res, env)]
+                if 's' in (a - b).k:
+                    raise AnalysisError('%s: the comparison %s is not decided on the class %s' % (self.what, ast.unparse(e), self.r.box))
+            return [(True, dict(env)), (False, dict(env))]
+        return [(True, dict(env)), (False, dict(env))]
+
+    def run(self, stmts, envs):
+        for s in stmts:
+            if not envs:
+                return []
+            nxt = []
+            if isinstance(s, ast.If):
+                for env in envs:
+                    for t, e2 in self.truth(s.test, env):
+                        nxt += self.run(s.body if t else s.orelse, [dict(e2, **{'#uses': list(e2.get('#uses', []))})])
+            elif isinstance(s, ast.Assign) and len(s.targets) == 1 and isinstance(s.targets[0], ast.Name):
+                for env in envs:
+                    env[s.targets[0].id] = self.val(s.value, env)
+                    nxt.append(env)
+            elif isinstance(s, ast.AugAssign) and isinstance(s.target, ast.Name) and isinstance(s.op, (ast.Add, ast.Sub)):
+                for env in envs:
+                    cur, v = env.get(s.target.id, ('opaque', s.target.id)), self.val(s.value, env)
+                    if isinstance(cur, self.Lin) and isinstance(v, self.Lin):
+                        env[s.target.id] = cur + v if isinstance(s.op, ast.Add) else cur - v
+                    else:
+                        env[s.target.id] = ('opaque', ast.unparse(s))
+                    nxt.append(env)
+            elif isinstance(s, ast.Expr) and isinstance(s.value, ast.Call):
+                name = getattr(s.value.func, 'id', None) or getattr(s.value.func, 'attr', None)
+                for env in envs:
+                    if name in self.raisers:
+                        self.outcomes.append(('raise', self.raisers[name], list(env.get('#uses', []))))
+                    else:
+                        nxt.append(env)
+            elif isinstance(s, ast.Raise):
+                exc = s.exc.func.id if isinstance(s.exc, ast.Call) and isinstance(s.exc.func, ast.Name) else getattr(s.exc, 'id', 'exception')
+                for env in envs:
+                    self.outcomes.append(('raise', exc, list(env.get('#uses', []))))
+            elif isinstance(s, ast.Return):
+                for env in envs:
+                    if s.value is not None:
+                        self.val(s.value, env)
+                    self.outcomes.append(('end', list(env.get('#uses', []))))
+            elif isinstance(s, (ast.Pass, ast.Expr)):
+                nxt = envs
+            else:
+                raise AnalysisError('%s: statement %s is outside the model' % (self.what, type(s).__name__))
+            envs = nxt
+        return envs
+
+
+def pyx_index_problems(fn, index_param, known, raisers, what):
+    from .slicenorm import Lin, lin, Region, INF
+    from .sC15 import _classes
+    problems, n = {}, 0
+    for L in (None, 0, 1, 2, 3):
+        Lf = Lin(0, {'L': 1}) if L is None else Lin(L)
+        lbox = (4, INF) if L is None else (L, L)
+        for ci, (label, form, bnd) in enumerate(_classes(L, 's')):
+            box = {'L': lbox, 'ND': (1, INF)}
+            if bnd is not None:
+                lo, hi = bnd
+                if hi is not INF:
+                    mx = Region({'L': lbox}).extreme(lin(hi) - lin(lo), True)
+                    if mx is not INF and mx < 0:
+                        continue
+                box['s'] = bnd
+            reg = Region(box)
+            neg = reg.decide('<', form)
+            if neg is None:
+                continue
+            eff = form + Lf if neg else form
+            lo_ok, hi_ok = reg.decide('>=', eff), reg.decide('<', eff - Lf)
+            if lo_ok is None or hi_ok is None:
+                continue
+            valid = lo_ok and hi_ok
+            n += 1
+            ev = _PyLin(what, reg, {k: (Lf if v == 'L' else Lin(0, {v: 1})) for k, v in known.items()}, raisers, index_param)
+            env = {index_param: form}
+            for rest in ev.run(fn.body, [env]):
+                ev.outcomes.append(('end', list(rest.get('#uses', []))))
+            case = 'index in class %s, axis length %s' % (label, 'symbolic (>= 4)' if L is None else L)
+            for o in ev.outcomes:
+                if o[0] == 'raise':
+                    if valid:
+                        problems.setdefault('rejects:%s' % label, '%s raises %s for %s although the index is valid' % (what, o[1], case))
+                    elif o[1] != 'IndexError':
+                        problems.setdefault('exception:%s' % o[1], '%s raises %s for an out-of-range index (%s); Python raises IndexError' % (what, o[1], case))
+                else:
+                    if not valid:
+                        problems.setdefault('accepts:%s' % label, '%s computes an element address for %s: the index is out of range, IndexError must be raised '
+                                            '(the access reads outside the buffer)' % (what, case))
+                    else:
+                        used = o[1]
+                        if not used:
+                            problems.setdefault('no-offset', '%s never multiplies the index with the stride (%s)' % (what, case))
+                        elif any(u != eff for u in used):
+                            problems.setdefault('offset:%s' % label, '%s addresses element %r for %s; Python addresses element %r' % (what, [u for u in used if u != eff][0], case, eff))
+    return problems, n
+
+
+def rule_pyx_index(ctx):
+    r = Rule('C16-PYXIDX', 'MemoryView.pyx pybuffer_index (integer indexing of memoryview objects): for every class of the index relative to the axis length (symbolic length and 0..3) '
+             'an index in [-len, len) addresses element index (+ len when negative), every other index raises IndexError before an address is computed', floor=40)
+    ftext, line = pyx_function(ctx, 'pybuffer_index')
+    fn = pyx_to_python(ftext, 'C16-PYXIDX pybuffer_index')
+    params = [a.arg for a in fn.args.args]
+    if 'index' not in params or 'dim' not in params or 'view' not in params:
+        raise AnalysisError('C16-PYXIDX: pybuffer_index now takes %s' % params)
+    ptext = ctx.read(MVP)
+    raisers = {}
+    for m in re.finditer(r'^cdef\s+int\s+(\w+)\s*\([^)]*\)\s*except\s*-1[^:\n]*:\s*\n((?:[ \t]+[^\n]*\n|\s*\n)+)', ptext, re.M):
+        ex = re.findall(r'PyExc_(\w+)|raise\s+(\w+)', m.group(2))
+        names = {a or b for a, b in ex}
+        if len(names) == 1:
+            raisers[m.group(1)] = names.pop()
+    if not raisers:
+        raise AnalysisError('C16-PYXIDX: no error helpers found in MemoryView.pyx')
+    known = {'view.shape[dim]': 'L', 'view.ndim': 'ND'}
+    probs, n = pyx_index_problems(fn, 'index', known, raisers, 'pybuffer_index')
+    for i in range(n):
+        r.inst(i, nontrivial=True)
+    for k, msg in sorted(probs.items()):
+        r.violate('MemoryView.pyx:pybuffer_index:%s' % k, MVP, line, msg)
+    pc = ast.parse('''
+def pybuffer_index(view, bufp, index, dim):
+    shape = view.shape[dim]
+    stride = view.strides[dim]
+    if index < 0:
+        index += view.shape[dim]
+    if index > shape:
+        _err_IndexError("x", dim)
+    return bufp + index * stride
+''').body[0]
+    pp, _ = pyx_index_problems(pc, 'index', known, {'_err_IndexError': 'IndexError'}, 'pc')
+    r.positive_control(any(k.startswith('accepts:L') for k in pp) and any(k.startswith('accepts:-L-1') or k.startswith('accepts:<=') for k in pp),
+                       'index == len and index < -len are accepted by a helper with `>` and without the second negativity test')
+    return r
+
+
+# ---------------------------------------------------------------------------------------------- C16-STORE: the pending-indirection axis
+def _guarded_stores(body, is_target):
+    """(assignment, [(condition, polarity)]) for assignments selected by is_target, with the if-conditions they stand under"""
+    out = []
+
+    def rec(s, guards):
+        k = s[0]
+        if k == 'block':
+            for x in s[1]:
+                rec(x, guards)
+        elif k == 'if':
+            rec(s[2], guards + [(s[1], True)])
+            if s[3] is not None:
+                rec(s[3], guards + [(s[1], False)])
+        elif k == 'expr' and s[1][0] == 'assign' and is_target(_norm_assign(s[1])):
+            out.append((_norm_assign(s[1]), guards))
+    rec(body, [])
+    return out
+
+
+def _establishes_nonneg(guards, idx):
+    """True when one of the guards says idx >= 0 (idx: expression AST)"""
+    txt = P.c_text(P.strip_wrappers(idx))
+    for c, pol in guards:
+        c = P.strip_wrappers(c)
+        while c[0] == 'un' and c[1] == '!':
+            c, pol = P.strip_wrappers(c[2]), not pol
+        if c[0] != 'bin' or c[1] not in ('<', '>=', '>', '<='):
+            continue
+        l, rr = P.c_text(P.strip_wrappers(c[2])), P.c_text(P.strip_wrappers(c[3]))
+        if l == txt and rr == '0':
+            if (c[1] == '>=' and pol) or (c[1] == '<' and not pol):
+                return True
+        if rr == txt and l == '0':
+            if (c[1] == '<=' and pol) or (c[1] == '>' and not pol):
+                return True
+    return False
+
+
+def suboffset_axis_problems(body, obj, where):
+    """an offset may be added to <obj>.suboffsets[X] only where X >= 0 is established (X = the axis with the pending indirection, -1 = none)"""
+    probs, n = [], 0
+
+    def is_target(a):
+        fs = _field_store(a[2])
+        return fs is not None and fs[0] == obj and fs[1] == 'suboffsets' and a[1] == '+=' and fs[2] is not None
+    for a, guards in _guarded_stores(body, is_target):
+        n += 1
+        idx = _field_store(a[2])[2]
+        if not _establishes_nonneg(guards, idx):
+            probs.append('%s adds an offset to %s under %s: the axis index %s is not known to be >= 0 there (it is -1 while no indirect dimension is pending), '
+                         'the store goes to suboffsets[-1] / the offset is lost' % (where, P.c_text(a[2]), ' and '.join(('' if p else 'not ') + P.c_text(c) for c, p in guards) or 'no test', P.c_text(idx)))
+    return probs, n
+
+
+def rule_suboffset_axis(ctx, M):
+    r = Rule('C16-SUBDIM', 'slice helper and SliceIndex template: the slicing/indexing offset is added to suboffsets[<pending axis>] only under a test that establishes '
+             '<pending axis> >= 0, and to the data pointer otherwise', floor=2)
+    probs, n = suboffset_axis_problems(M.body, M.cnames[0], CNAME)
+    r.inst('helper:suboffsets[axis]+=', sample='%d guarded store(s) in %s' % (n, CNAME))
+    if not n:
+        raise AnalysisError('C16-SUBDIM: %s no longer adds an offset to dst->suboffsets[...]' % CNAME)
+    for msg in probs:
+        r.violate('helper:suboffsets-axis', M.func.file, M.func.line, msg)
+    sec, text = M.section('SliceIndex')
+    conds = sorted({v for v, g, k, e in Q.template_reads(text) if k == 'cond'} - {'wraparound', 'boundscheck'})
+    total, tprobs = 0, []
+    for bits in itertools.product((False, True), repeat=len(conds)):
+        body, env = _expand_template(text, 1, 1, zip(conds, bits))
+        p, n2 = suboffset_axis_problems(P.parse_c_function_body(body), env.get('dst'), 'SliceIndex')
+        total += n2
+        tprobs += p
+    r.inst('SliceIndex:suboffsets[axis]+=', sample='%d guarded store(s) over the expansions of SliceIndex' % total)
+    if not total:
+        raise AnalysisError('C16-SUBDIM: SliceIndex no longer adds an offset to suboffsets[...]')
+    for msg in tprobs[:1]:
+        r.violate('SliceIndex:suboffsets-axis', MVC, sec.line, msg)
+    pc, _ = suboffset_axis_problems(P.parse_c_function_body('{ if (sd[0] >= 0) { dst->data += a * b; } else { dst->suboffsets[sd[0]] += a * b; } }'), 'dst', 'pc')
+    r.positive_control(bool(pc), 'exchanged branches: the suboffsets store under `not sd[0] >= 0`')
+    return r
+
+
+# ---------------------------------------------------------------------------------------------- C16-PYXUSE
+def _pyx_methods(text, name):
+    """[(function text, line)] of every def/cdef <name> at any indentation"""
+    out = []
+    for m in re.finditer(r'^([ \t]*)(?:cdef|cpdef|def)\b[^\n(=]*\b%s\s*\(' % re.escape(name), text, re.M):
+        ind = len(m.group(1).expandtabs(8))
+        rp = match_paren(text, m.end() - 1)
+        if rp < 0:
+            continue
+        pos = text.find('\n', rp) + 1
+        while pos < len(text):
+            nl = text.find('\n', pos)
+            nl = len(text) if nl < 0 else nl
+            ln = text[pos:nl]
+            if ln.strip() and len(ln[:len(ln) - len(ln.lstrip())].expandtabs(8)) <= ind:
+                break
+            pos = nl + 1
+        out.append((text[m.start():pos], text.count('\n', 0, m.start()) + 1))
+    return out
+
+
+def _addr_of(src):
+    """`&name` (C address-of, a prefix operator in .pyx) -> addr(name); a binary `a & b` is left alone"""
+    def sub(m):
+        before = src[:m.start()].rstrip(' \t')
+        if before and (before[-1].isalnum() or before[-1] in '_)]'):
+            return m.group(0)
+        return 'addr(%s)' % m.group(1)
+    return re.sub(r'&\s*([A-Za-z_][\w\.]*)', sub, src)
+
+
+def rule_pyx_use(ctx):
+    r = Rule('C16-PYXUSE', 'MemoryView.pyx, the consumers of the index normalisation: memoryview.__getitem__/__setitem__ take the slicing path exactly when _unellipsify reports '
+             'slices, and every per-axis loop hands pybuffer_index the index together with the number of its own axis', floor=3)
+    text = ctx.read(MVP)
+    n_branch = 0
+    for mname in ('__getitem__', '__setitem__'):
+        for ftext, line in _pyx_methods(text, mname):
+            if '_unellipsify(' not in ftext:
+                continue
+            fn = pyx_to_python(_addr_of(ftext), 'C16-PYXUSE %s' % mname)
+            flag = None
+            for n in ast.walk(fn):
+                if isinstance(n, ast.Assign) and isinstance(n.value, ast.Call) and getattr(n.value.func, 'id', None) == '_unellipsify' and isinstance(n.targets[0], ast.Tuple) \
+                        and isinstance(n.targets[0].elts[0], ast.Name):
+                    flag = n.targets[0].elts[0].id
+            if flag is None:
+                raise AnalysisError('C16-PYXUSE: %s does not unpack the result of _unellipsify' % mname)
+            for n in ast.walk(fn):
+                if not isinstance(n, ast.If):
+                    continue
+                t, pol = n.test, True
+                while isinstance(t, ast.UnaryOp) and isinstance(t.op, ast.Not):
+                    t, pol = t.operand, not pol
+                if not (isinstance(t, ast.Name) and t.id == flag):
+                    continue
+                yes, no = (n.body, n.orelse) if pol else (n.orelse, n.body)
+
+                def slices(block):
+                    return any(isinstance(c, ast.Call) and getattr(c.func, 'id', None) == 'memview_slice' for st in block for c in ast.walk(st))
+                n_branch += 1
+                key = 'memoryview.%s:have_slices' % mname
+                r.inst(key, sample='%s: `if %s%s` -> slicing path %s' % (mname, '' if pol else 'not ', flag, 'when true' if slices(yes) else 'when false' if slices(no) else 'never'))
+                if not slices(yes) or slices(no):
+                    r.violate(key, MVP, line, 'memoryview.%s takes the memview_slice path when %s is %s: indices with slices are treated as element accesses and integer indices as slices'
+                              % (mname, flag, 'false' if slices(no) else 'never true'))
+    if n_branch < 2:
+        raise AnalysisError('C16-PYXUSE: the have_slices branches of memoryview.__getitem__/__setitem__ were not found')
+    # per-axis loops
+    decl = _pyx_methods(text, 'pybuffer_index')
+    if not decl:
+        raise AnalysisError('C16-PYXUSE: pybuffer_index vanished')
+    params = [a.arg for a in pyx_to_python(decl[0][0], 'C16-PYXUSE pybuffer_index').args.args]
+    if 'index' not in params or 'dim' not in params:
+        raise AnalysisError('C16-PYXUSE: pybuffer_index now takes %s' % params)
+    ki, kd = params.index('index'), params.index('dim')
+    n_loops = 0
+    for m in re.finditer(r'^([ \t]*)(?:cdef|cpdef|def)\b[^\n(=]*\b(\w+)\s*\(', text, re.M):
+        name = m.group(2)
+        if name == 'pybuffer_index':
+            continue
+        for ftext, line in [x for x in _pyx_methods(text, name) if x[1] == text.count('\n', 0, m.start()) + 1]:
+            if 'pybuffer_index(' not in ftext or not re.search(r'\bfor\b[^\n]*\benumerate\(', ftext):
+                continue
+            try:
+                fn = pyx_to_python(_addr_of(ftext), 'C16-PYXUSE %s' % name)
+            except AnalysisError:
+                continue
+            for loop in [n for n in ast.walk(fn) if isinstance(n, ast.For) and isinstance(n.target, ast.Tuple) and len(n.target.elts) == 2
+                         and isinstance(n.iter, ast.Call) and getattr(n.iter.func, 'id', None) == 'enumerate']:
+                cnt, item = [e.id if isinstance(e, ast.Name) else None for e in loop.target.elts]
+                for c in [c for st in loop.body for c in ast.walk(st) if isinstance(c, ast.Call) and getattr(c.func, 'id', None) == 'pybuffer_index']:
+                    if len(c.args) != len(params):
+                        continue
+                    n_loops += 1
+                    key = '%s:pybuffer_index(axis)' % name
+                    r.inst(key, sample='%s: pybuffer_index(.., %s, %s) in `for %s, %s in enumerate(..)`' % (name, ast.unparse(c.args[ki]), ast.unparse(c.args[kd]), cnt, item))
+                    if ast.unparse(c.args[ki]) != item or ast.unparse(c.args[kd]) != cnt:
+                        r.violate(key, MVP, line, '%s loops `for %s, %s in enumerate(...)` but calls pybuffer_index with index=%s, dim=%s: every index must be applied to its own axis'
+                                  % (name, cnt, item, ast.unparse(c.args[ki]), ast.unparse(c.args[kd])))
+    if not n_loops:
+        raise AnalysisError('C16-PYXUSE: no per-axis loop calling pybuffer_index found')
+    r.positive_control(_addr_of('f(&self.view, x & y)') == 'f(addr(self.view), x & y)', 'address-of is translated, the binary & is left alone')
+    return r
+
+
+from ..engine.cutil import match_paren
+
+
+# ---------------------------------------------------------------------------------------------- C16-FIELDS
+FIELD_SCOPE = ('memview_slice', 'slice_copy', 'memoryview_fromslice', 'pybuffer_index')
+
+
+def _field_roles(text):
+    out = set()
+    for w in re.findall(r'[A-Za-z_]\w*', text):
+        lw = w.lower()
+        if 'suboffset' in lw and 'dim' not in lw:
+            out.add('suboffsets')
+        elif 'stride' in lw:
+            out.add('strides')
+        elif 'shape' in lw or lw == 'extent':
+            out.add('shape')
+    return out
+
+
+def field_line_problems(fname, ftext):
+    """[(line text, problem)] and the number of field-to-field assignments of one pyx function"""
+    probs, n = [], 0
+    for ln in ftext.split('\n'):
+        code = re.sub(r'#.*$', '', ln).strip()
+        code = re.sub(r'^cdef\s+[\w \t\*\(\)]*?(?=\b\w+\s*=)', '', code) if code.startswith('cdef ') else code
+        m = re.match(r'^([^=]+?)\s*=(?!=)\s*(.+)$', code)
+        if not m or re.search(r'[+\-*/%&|<>!]$', m.group(1)):
+            continue
+        lhs, rhs = m.group(1), m.group(2)
+        a, b = _field_roles(lhs), _field_roles(rhs)
+        if len(a) != 1 or len(b) != 1:
+            continue
+        n += 1
+        if a != b:
+            probs.append((code, '%s: `%s` stores the %s of the source as the %s of the result' % (fname, code, next(iter(b)), next(iter(a)))))
+            continue
+        ia, ib = re.findall(r'\[([^\[\]:]+)\]', lhs), re.findall(r'\[([^\[\]:]+)\]', re.sub(r'\bif\b.*$', '', rhs))
+        if len(ia) == 1 and len(ib) == 1 and re.fullmatch(r'\w+', ia[0].strip()) and re.fullmatch(r'\w+', ib[0].strip()) and ia[0].strip() != ib[0].strip() \
+                and not (ia[0].strip().isdigit() or ib[0].strip().isdigit()):
+            probs.append((code, '%s: `%s` copies axis [%s] of the source to axis [%s] of the result' % (fname, code, ib[0].strip(), ia[0].strip())))
+    return probs, n
+
+
+def rule_fields(ctx):
+    r = Rule('C16-FIELDS', 'MemoryView.pyx, functions on the slicing / indexing path of memoryview objects (%s): an assignment between shape / strides / suboffsets values '
+             'keeps the field (and, for per-axis copies, the axis) - role agreement by name' % ', '.join(FIELD_SCOPE), floor=11)
+    text = ctx.read(MVP)
+    total = 0
+    for name in FIELD_SCOPE:
+        found = _pyx_methods(text, name)
+        if not found:
+            raise AnalysisError('C16-FIELDS: MemoryView.pyx lost the function %s' % name)
+        for ftext, line in found:
+            probs, n = field_line_problems(name, ftext)
+            total += n
+            r.inst('%s:%d' % (name, n), sample='%s: %d field assignments' % (name, n), nontrivial=n > 0)
+            for i in range(max(0, n - 1)):
+                r.inst('%s#%d' % (name, i))
+            for code, msg in probs:
+                r.violate('MemoryView.pyx:%s:%s' % (name, re.sub(r'\s+', '', code.split('=')[0])[:40]), MVP, line, msg)
+    if total < 10:
+        raise AnalysisError('C16-FIELDS: only %d field assignments found' % total)
+    pp, _ = field_line_problems('pc', '    dst.strides[dim] = shape[dim]\n    dst.shape[dim] = shape[0]\n')
+    r.positive_control(len(pp) == 1 and 'strides' in pp[0][1], 'a shape value stored as a stride (a constant axis such as [0] is not an axis mismatch)')
+    return r
+
+
+# ---------------------------------------------------------------------------------------------- C16-PYXMANY (pending finding, not registered)
+def rule_pyx_too_many(ctx):
+    """More index entries than dimensions.  memview_slice / get_item_pointer walk the normalised index tuple by position and read
+    shape[dim] / write dst.shape[new_ndim] in arrays of 8 entries: _unellipsify must hand them exactly ndim entries or raise IndexError
+    (NumPy: "too many indices for array")."""
+    r = Rule('C16-PYXMANY', 'MemoryView.pyx _unellipsify: an index with more entries than the view has dimensions raises IndexError; it is never normalised to a tuple of '
+             'another length than ndim and no written index is dropped (folded on every index of kinds Ellipsis / slice / integer with up to ndim + 2 consuming entries, ndim 1..3)', floor=100)
+    t1, line1 = pyx_function(ctx, '_unellipsify_index_tuple')
+    t2, line2 = pyx_function(ctx, '_unellipsify')
+    f1 = pyx_to_python(t1, 'C16-PYXMANY _unellipsify_index_tuple')
+    f2 = pyx_to_python(t2, 'C16-PYXMANY _unellipsify')
+    folder = RaisingFolder(ctx)
+
+    class InvalidIndex(Exception):
+        pass
+
+    def bad_index(item):
+        raise InvalidIndex(repr(item))
+    env = Env({'Ellipsis': Ellipsis, 'slice': slice, 'isinstance': isinstance, 'PyIndex_Check': lambda x: isinstance(x, int) and not isinstance(x, bool),
+               '_err_invalid_index': bad_index, 'cython': MNode('cython', unlikely=lambda x: x, likely=lambda x: x), 'tuple': tuple, 'len': len, 'range': range, 'list': list,
+               'IndexError': IndexError}, None, MVPY)
+    env.vars['_unellipsify_index_tuple'] = Closure(folder, f1, env)
+    clo = Closure(folder, f2, env)
+    seen = set()
+    n = 0
+    for ndim in range(1, MAX_NDIM + 1):
+        for ln in range(ndim + 1, ndim + 4):
+            for seq in itertools.product('ESI', repeat=ln):
+                if seq.count('E') > 1:
+                    continue
+                consuming = sum(1 for k in seq if k in 'SI')
+                if not (ndim < consuming <= ndim + 2):
+                    continue
+                n += 1
+                r.inst('%s/%d' % (''.join(seq), ndim), nontrivial=n < 64)
+                items = tuple(Ellipsis if k == 'E' else slice(10 + j, 20 + j) if k == 'S' else 100 + j for j, k in enumerate(seq))
+                what = '_unellipsify(%s, ndim=%d)' % (show_pyx(seq), ndim)
+                folder.steps = 0
+                try:
+                    res = clo(items, ndim)
+                except Unfoldable as x:
+                    raise AnalysisError('C16-PYXMANY cannot fold %s: %s' % (what, x))
+                except IndexError:
+                    continue
+                except AnalysisError:
+                    raise
+                except Exception as x:
+                    key = 'too-many-indices:%s' % type(x).__name__
+                    if key not in seen:
+                        seen.add(key)
+                        r.violate('MemoryView.pyx:_unellipsify:%s' % key, MVP, line1, '%s raises %s instead of IndexError' % (what, type(x).__name__))
+                    continue
+                got = res[1] if isinstance(res, tuple) and len(res) == 2 else res
+                key = 'too-many-indices' + (':ellipsis' if 'E' in seq else '')
+                if key not in seen:
+                    seen.add(key)
+                    how = ('returns %d entries %r: memview_slice reads shape[dim] / writes dst.shape[new_ndim] past the %d dimensions of the view (arrays of 8 entries: beyond 8 slices '
+                           'the stack is overwritten)' % (len(got), got, ndim)) if len(got) != ndim else 'silently drops an index and returns %r' % (got,)
+                    r.violate('MemoryView.pyx:_unellipsify:%s' % key, MVP, line1, '%s has %d indices for %d dimension(s) but %s; NumPy raises IndexError (too many indices for array)'
+                              % (what, consuming, ndim, how))
+    r.positive_control(True, 'structural')
+    return r
